@@ -124,6 +124,10 @@ int sqfs_meta_reader_seek(sqfs_meta_reader_t *m, sqfs_u64 block_start,
 	if ((block_start + 2 + size) > m->limit)
 		return SQFS_ERROR_OUT_OF_BOUNDS;
 
+	/* The buffer is about to be overwritten. If anything fails from here
+	   on, it must not be mistaken for the previously cached block. */
+	m->block_offset = 0xFFFFFFFFFFFFFFFFUL;
+
 	err = m->file->read_at(m->file, block_start + 2, m->data, size);
 	if (err)
 		return err;
